@@ -16,6 +16,7 @@
 //! the oracle (the oracle is the extracted `reach_spec`, see ocaml/driver/c10.ml).
 use crate::dump::*;
 use crate::exprgen::*;
+use crate::c04::mcgen::{McCfg, dump_named, gen_mc_sys, restore_named};
 use crate::rng::Rng;
 use crate::sexp::{Sexp, read_cases};
 use crate::sysgen::{build_sys, dump_sys};
@@ -789,6 +790,7 @@ fn gen_family(ctx: &mut Context, rng: &mut Rng, fam: &str) -> TransitionSystem {
         "deadend" => fam_deadend(ctx, rng),
         "relinit" => fam_relinit(ctx, rng),
         "consbad" => fam_consbad(ctx, rng),
+        "mcgen" => panic!("mcgen systems are generated in the main loop"),
         other => panic!("unknown family {other}"),
     }
 }
@@ -809,6 +811,7 @@ const FAMILIES: &[(&str, u64)] = &[
     ("deadend", 7),
     ("relinit", 8),
     ("consbad", 7),
+    ("mcgen", 14),
 ];
 
 fn pick_family(rng: &mut Rng) -> &'static str {
@@ -1052,6 +1055,8 @@ struct Job {
     family: String,
     class: String,
     sys_text: String,
+    /// "(named (expr "name") ..)": the explicit names of non-symbol signals (they change the SMT encoding)
+    named: String,
     cfg: RunCfg,
 }
 
@@ -1104,8 +1109,10 @@ fn parent(args: &Args) {
             let fam = c.field("family").map(|f| f[0].atom().to_string()).unwrap_or_else(|| "replay".into());
             let sys_sexp = c.list().iter().find(|x| matches!(x, Sexp::List(l) if !l.is_empty() && matches!(&l[0], Sexp::Atom(a) if a == "sys"))).expect("(sys ...) field");
             let mut ctx = Context::default();
-            let sys = build_sys(&mut ctx, sys_sexp);
+            let mut sys = build_sys(&mut ctx, sys_sexp);
+            restore_named(&mut ctx, &mut sys, c);
             let sys_text = dump_sys(&ctx, &sys);
+            let named = dump_named(&ctx, &sys);
             let class = guarded(|| classify(&ctx, &sys)).ok().flatten().map(|c| c.label()).unwrap_or_else(|| "unclassified".into());
             let cfg = RunCfg {
                 solver: c.field("solver").map(|f| f[0].atom().to_string()).unwrap_or_else(|| "z3".into()),
@@ -1116,7 +1123,7 @@ fn parent(args: &Args) {
             stats.bump("family", &fam);
             stats.bump("class", &class);
             distinct_sys.insert(sys_text.clone());
-            jobs.push(Job { id, family: fam, class, sys_text, cfg });
+            jobs.push(Job { id, family: fam, class, sys_text, named, cfg });
         }
     }
 
@@ -1133,8 +1140,19 @@ fn parent(args: &Args) {
             None => pick_family(&mut r),
         };
         let mut ctx = Context::default();
-        let sys = gen_family(&mut ctx, &mut r, fam);
-        let Some(class) = classify(&ctx, &sys) else {
+        let (sys, mc_features) = if fam == "mcgen" {
+            // the generator of the encoding properties (C04/C02/C03): shared init/next/bad signals, init-dependency
+            // chains, delay registers, named signals, constant states, bare inputs as bad states ...; its
+            // encoding-level defects reach PDR through the BMC fallback and through the transition encoding
+            let cfg = McCfg { max_state_bits: 6, max_input_bits: 3, arrays: false, div_rem: false, init_reads_later: true };
+            let mut scratch = Stats::default();
+            let out = gen_mc_sys(&mut ctx, &mut r, &cfg, &mut scratch);
+            (out.sys, out.features)
+        } else {
+            (gen_family(&mut ctx, &mut r, fam), vec![])
+        };
+        let class = if fam == "mcgen" { guarded(|| classify(&ctx, &sys)).ok().flatten() } else { classify(&ctx, &sys) };
+        let Some(class) = class else {
             stats.inc("rejected_too_large");
             continue;
         };
@@ -1146,6 +1164,10 @@ fn parent(args: &Args) {
             None => "safe-trivial",
         };
         let special = matches!(fam, "noinit" | "freestate" | "conststate" | "initstate" | "initinput");
+        if fam == "mcgen" && (sys.bad_states.is_empty() || class.input_bits > 3) {
+            stats.inc("rejected_mcgen_shape");
+            continue;
+        }
         if class.bwd_layers > 13 {
             // a long backward chain from the bad states means many frames and thousands of queries:
             // that would test the watchdog against speed, not against hangs
@@ -1209,6 +1231,13 @@ fn parent(args: &Args) {
             *n_by_kind.entry("special").or_insert(0) += 1;
         }
         let label = class.label();
+        let named = dump_named(&ctx, &sys);
+        for f in mc_features.iter() {
+            stats.bump("mcgen_features", f);
+        }
+        if fam == "mcgen" {
+            stats.bump("mcgen_named_signals", &format!("{}", named.matches("\"").count() / 2));
+        }
         stats.bump("family", fam);
         stats.bump("class", &label);
         stats.bump("kind", kind);
@@ -1233,6 +1262,7 @@ fn parent(args: &Args) {
                 family: fam.to_string(),
                 class: label.clone(),
                 sys_text: sys_text.clone(),
+                named: named.clone(),
                 cfg: RunCfg { solver: solver.to_string(), gen_on, sseed: 0, fault: Some((kind.to_string(), at)) },
             });
         }
@@ -1253,7 +1283,7 @@ fn parent(args: &Args) {
                 stats.inc("minimal_core_runs_skipped_expensive");
                 continue;
             }
-            jobs.push(Job { id: format!("{produced}.{k}"), family: fam.to_string(), class: label.clone(), sys_text: sys_text.clone(), cfg: cfg.clone() });
+            jobs.push(Job { id: format!("{produced}.{k}"), family: fam.to_string(), class: label.clone(), sys_text: sys_text.clone(), named: named.clone(), cfg: cfg.clone() });
         }
         produced += 1;
     }
@@ -1279,7 +1309,7 @@ fn parent(args: &Args) {
     let mut script_hashes: HashMap<String, HashSet<String>> = HashMap::new();
     for (job, res) in jobs.iter().zip(results.iter()) {
         let line = format!(
-            "(case {} (family {}) (class {}) (solver {}) (gen {}) (sseed {}){} {} {})",
+            "(case {} (family {}) (class {}) (solver {}) (gen {}) (sseed {}){} {} {} {})",
             job.id,
             job.family,
             job.class,
@@ -1291,12 +1321,13 @@ fn parent(args: &Args) {
                 None => String::new(),
             },
             job.sys_text,
+            job.named,
             res.fields
         );
         if let Some((k, _)) = &job.cfg.fault {
             stats.bump("fault_runs", &format!("{k}:{}:{}", if res.fields.contains("(faulthit 1)") { "hit" } else { "not-reached" }, res.kind));
         }
-        distinct.insert(format!("{} {} {} {} {:?}", job.sys_text, job.cfg.solver, job.cfg.gen_on, job.cfg.sseed, job.cfg.fault));
+        distinct.insert(format!("{} {} {} {} {} {:?}", job.sys_text, job.named, job.cfg.solver, job.cfg.gen_on, job.cfg.sseed, job.cfg.fault));
         stats.bump("impl_result", &res.kind);
         stats.bump("impl_result_x_kind", &format!("{}:{}", res.kind, job.class.split("-d").next().unwrap_or("")));
         stats.bump("config", &format!("{}:gen-{}:seed{}", job.cfg.solver, if job.cfg.gen_on { "on" } else { "off" }, job.cfg.sseed));
@@ -1449,7 +1480,7 @@ fn run_one(job: &Job, watchdog: u64) -> RunResult {
     {
         let mut stdin = child.stdin.take().unwrap();
         let _ = stdin.write_all(job.sys_text.as_bytes());
-        let _ = stdin.write_all(b"\n");
+        let _ = stdin.write_all(format!("\n(x {})\n", job.named).as_bytes());
     }
     // read stdout in a thread so that a large witness cannot block the child
     let mut stdout = child.stdout.take().unwrap();
@@ -1634,9 +1665,15 @@ impl<S: SolverContext> SolverContext for FaultyCtx<S> {
 fn worker(args: &Args) {
     let mut text = String::new();
     std::io::stdin().read_to_string(&mut text).expect("stdin");
-    let sx = Sexp::parse(text.trim()).expect("system s-expression");
+    // line 1: the system, line 2: (x (named ..))
+    let mut lines = text.trim().lines();
+    let sx = Sexp::parse(lines.next().unwrap_or("").trim()).expect("system s-expression");
     let mut ctx = Context::default();
-    let sys = build_sys(&mut ctx, &sx);
+    let mut sys = build_sys(&mut ctx, &sx);
+    if let Some(l) = lines.next() {
+        let nx = Sexp::parse(l.trim()).expect("names s-expression");
+        restore_named(&mut ctx, &mut sys, &nx);
+    }
     let solver = match args.get("solver").unwrap_or("z3") {
         "z3" => Z3,
         "cvc5" => CVC5,
